@@ -847,6 +847,80 @@ func init() {
 	}
 }
 
+// coAPIRefusals: LState.Resume refuses a running and a normal coroutine with an error result (no crash, no
+// recursion), nothing is transferred, and both coroutines carry on afterwards.  "" when all of that holds.
+func coAPIRefusals() (why string) {
+	done := make(chan string, 1)
+	go func() {
+		defer func() {
+			if r := recover(); r != nil {
+				done <- fmt.Sprint("go panic: ", r)
+			}
+		}()
+		L := lua.NewState()
+		defer L.Close()
+		var trace []string
+		L.SetGlobal("emit", L.NewFunction(func(S *lua.LState) int {
+			var parts []string
+			for i := 1; i <= S.GetTop(); i++ {
+				parts = append(parts, S.Get(i).String())
+			}
+			trace = append(trace, strings.Join(parts, ","))
+			return 0
+		}))
+		L.SetGlobal("tryresume", L.NewFunction(func(S *lua.LState) int {
+			th := S.CheckThread(1)
+			top := S.GetTop()
+			st, err, vals := S.Resume(th, S.NewFunction(func(*lua.LState) int { return 0 }), lua.LString("payload"))
+			res := "accepted"
+			if st == lua.ResumeError && err != nil {
+				switch {
+				case strings.Contains(err.Error(), "running"):
+					res = "refused-running"
+				case strings.Contains(err.Error(), "normal"), strings.Contains(err.Error(), "non-suspended"):
+					res = "refused-normal"
+				default:
+					res = "error:" + err.Error()
+				}
+			}
+			if len(vals) != 0 || S.GetTop() != top {
+				res += fmt.Sprintf("+values=%d,top:%d->%d", len(vals), top, S.GetTop())
+			}
+			S.Push(lua.LString(res))
+			return 1
+		}))
+		err := L.DoString(`
+local outer
+local inner = coroutine.create(function(x)
+  local a = tryresume(coroutine.running())
+  local b = tryresume(outer)
+  local got = coroutine.yield(a, b, x)
+  return "inner-done", got
+end)
+outer = coroutine.create(function() local r = {coroutine.resume(inner, "x1")} emit("outer", unpack(r)) return "outer-done" end)
+emit("r1", coroutine.resume(outer))
+emit("s1", coroutine.status(inner), coroutine.status(outer))
+emit("r2", coroutine.resume(inner, "x2"))
+emit("s2", coroutine.status(inner), tryresume(inner), tryresume(outer))`)
+		if err != nil {
+			done <- "script failed: " + err.Error()
+			return
+		}
+		want := "outer,true,refused-running,refused-normal,x1|r1,true,outer-done|s1,suspended,dead|r2,true,inner-done,x2|s2,dead,error:can not resume a dead thread,error:can not resume a dead thread"
+		if got := strings.Join(trace, "|"); got != want {
+			done <- "trace " + got + " expected " + want
+			return
+		}
+		done <- ""
+	}()
+	select {
+	case why = <-done:
+	case <-time.After(20 * time.Second):
+		why = "hang"
+	}
+	return
+}
+
 func coCanary() string {
 	cmd := exec.Command(os.Args[0])
 	cmd.Env = append(os.Environ(), "C06M_CANARY=1", "GOMAXPROCS=2")
@@ -883,6 +957,12 @@ func runC06M(run *Run) {
 		line := "X resume-of-normal-coroutine " + strings.ReplaceAll(why, " ", "_") + " => A=create(resume(B));B=create(resume(A));resume(A)"
 		run.Failures = append(run.Failures, Failure{CaseIdx: -9000, Kind: "CRASH", Line: line, Reply: line, Lines: []string{line}})
 		run.Extra["canary"] = why
+		return
+	}
+	if why := coAPIRefusals(); why != "" {
+		line := "X go-api-resume-of-a-running-or-normal-coroutine " + strings.ReplaceAll(why, " ", "_") + " => LState.Resume(th) with th running / normal"
+		run.Failures = append(run.Failures, Failure{CaseIdx: -9001, Kind: "CRASH", Line: line, Reply: line, Lines: []string{line}})
+		run.Extra["api_refusals"] = why
 		return
 	}
 	root := NewRng(uint64(run.Seed))
